@@ -275,9 +275,10 @@ def check_value(chk, c, v, se, measure_tags, atom, not_tags, forwarder=False):
         if v is not None and "span:hi-lo" not in v.tags:
             # no (last - first) of one index array reaches the result: the reversed difference (first - last, provably <= 0) is the located wrong
             # instance; ends found some other way (bisection, a scan, joined with a fast path) are not located
-            rev_ = v.sign in (S_NONPOS, S_NEG)
+            rev_ = v.sign in (S_NONPOS, S_NEG) or "span:hi+lo" in v.tags
             chk.ob("R-ENDS", c + "[extent]", "the duration is (last - first) of one ascending index array, times dt", False,
-                   derived="sign %s, no (last - first) extent reaches the result" % v.sign, inconclusive=not rev_)
+                   derived=("the SUM (last + first) of the two ends of one index array reaches the result" if "span:hi+lo" in v.tags else
+                            "sign %s, no (last - first) extent reaches the result" % v.sign), inconclusive=not rev_)
             expect(chk, "R-ENDS", c, v, kind=K_SCALAR)
         else:
             expect(chk, "R-ENDS", c, v, sign="nonneg", tags_has=["sel:first", "sel:last", "span:hi-lo"], kind=K_SCALAR)      # the duration is end - start
